@@ -114,8 +114,13 @@ func unitOf(id, label string, mbs []msgBuilder) Unit {
 	}
 	f := baseFile(id, deps)
 	f.Enum("TopEnum", "TOP_ZERO", 0, "TOP_ONE", 1)
+	te := f.P.EnumType[len(f.P.EnumType)-1]
+	te.ReservedRange = []*descriptorpb.EnumDescriptorProto_EnumReservedRange{{Start: proto.Int32(5), End: proto.Int32(9)}}
+	te.ReservedName = []string{"TOP_RETIRED"}
 	tm := f.Msg("TopMsg")
 	tm.Field("t", 1, S(Int32))
+	tm.P.ReservedRange = []*descriptorpb.DescriptorProto_ReservedRange{{Start: proto.Int32(2), End: proto.Int32(5)}}
+	tm.P.ReservedName = []string{"retired"}
 	for _, mb := range mbs {
 		m := f.Msg(mb.name)
 		mb.fill(f, m)
